@@ -483,6 +483,8 @@ type Contract struct {
 	File       string
 	Line       int
 	PkgName    string
+	NoSafety   bool // `unchecked safety`: nil/bounds/type-assertion/... obligations are assumed, not proved (listed)
+	NoPre      bool // `unchecked pre`: preconditions of callees are assumed, not proved (listed)
 	Notes      []string
 }
 
@@ -765,6 +767,18 @@ func (cs *ContractSet) LoadContractFile(path, pkgName string, trusted bool) erro
 						cur.NoTrunc = true
 					default:
 						return fail(fmt.Errorf("unknown check %q", w))
+					}
+				}
+			case "unchecked":
+				// thin contracts on very large functions: only the anchors and postconditions are proved
+				for _, w := range strings.Fields(rest) {
+					switch w {
+					case "safety":
+						cur.NoSafety = true
+					case "pre":
+						cur.NoPre = true
+					default:
+						return fail(fmt.Errorf("unknown unchecked %q", w))
 					}
 				}
 			case "opaque":
